@@ -1,5 +1,7 @@
 """C10 - similarity and coupling estimates equal reference statistics."""
+import faulthandler
 import itertools
+import os
 import warnings
 
 import numpy as np
@@ -50,7 +52,7 @@ META = dict(
           "off-diagonal entry with a non-degenerate value (0.05<|r|<0.95 resp. "
           "MI>0.01), i.e. a wrong window, normalisation or index would "
           "change a compared number."),
-    floors={"quick": {"cc_all_compared": 150, "cc_max_compared": 150,
+    floors={"quick": {"runs_without_hard_kill": 1, "cc_all_compared": 150, "cc_max_compared": 150,
                       "symmetrize_compared": 150, "pure_cc_compared": 40,
                       "twin_cc_compared": 40, "mi_gauss_compared": 40,
                       "mi_binning_compared": 40, "mi_knn_compared": 15,
@@ -59,7 +61,7 @@ META = dict(
                       "clim_partial_compared": 8, "clim_mi_compared": 15,
                       "surr_pearson_compared": 15, "surr_mi_compared": 15,
                       "affine_checked": 100, "reorder_checked": 100},
-            "thorough": {"cc_all_compared": 1500, "cc_max_compared": 1500,
+            "thorough": {"runs_without_hard_kill": 1, "cc_all_compared": 1500, "cc_max_compared": 1500,
                          "symmetrize_compared": 1500,
                          "pure_cc_compared": 300, "twin_cc_compared": 300,
                          "mi_gauss_compared": 300,
@@ -95,6 +97,7 @@ META = dict(
         "knn estimator only run with T-tau_max > knn+2 (the growing-cube "
         "search cannot terminate otherwise; robustness observation, not C10)",
     ],
+    resume_on_death=True,   # see run()/post(): kernels that kill or hang
     technique="differential testing against independent reference statistics "
               "+ metamorphic relations, sharded seeded generation",
     level_text="every compared estimate agreed with an independent "
@@ -453,6 +456,24 @@ def fam_cc(ctx, mods, r, k, cid):
                 elif lag not in lags:
                     ctx.violation(f"{PP}.cross_correlation:max:lag-not-at-"
                                   "absmax", d, cid)
+    # 'sum': documented as the sums of |cc| over the non-negative lags
+    # (corrmat[0]) and over the non-positive lags (corrmat[1])
+    ok, PS = ctx.call(pp.cross_correlation, tau_max=tp, lag_mode="sum")
+    ctx.evals()
+    if not ok:
+        ctx.violation(f"{PP}.cross_correlation:sum:raises:"
+                      f"{type(PS).__name__}", {**pcase, "exc": repr(PS)},
+                      cid)
+    else:
+        RS = np.stack([np.abs(RP[tp:]).sum(axis=0),
+                       np.abs(RP[:tp + 1]).sum(axis=0)])
+        nbad, _, idx = worst(PS, RS, TOL_R * (tp + 1))
+        if nbad:
+            ctx.violation(f"{PP}.cross_correlation:sum:differs",
+                          {**pcase, "at": idx,
+                           "lib": float(PS[tuple(idx)]),
+                           "ref": float(RS[tuple(idx)])}, cid)
+        ctx.count("pure_cc_sum_compared")
     # agreement of the two implementations where the windows coincide:
     # (1) tau_max = 0 ; (2) pure tau_max = t', entry [2t', i, j]  ==
     #     compiled tau_max = 2t', entry (i, j, t')
@@ -572,8 +593,9 @@ def fam_mi(ctx, mods, r, k, cid):
             ctx.violation(f"{name}:max:raises:{type(SL).__name__}",
                           {**case, "exc": repr(SL)}, cid)
         else:
-            Fm = np.where(np.isnan(RGc) & ~np.isnan(RG) & np.isfinite(RG),
-                          np.nan, RG)
+            # pairs with a (nearly) perfectly correlated lag are skipped:
+            # rounding decides between a huge value, inf and NaN there
+            Fm = RGc
             check_mi_max(ctx, name, SL[0], SL[1], Fm, TOL_R, 1e-6, cid, case)
             ctx.count("mi_gauss_max_compared")
         # affine + reorder on the lag functions
@@ -589,7 +611,7 @@ def fam_mi(ctx, mods, r, k, cid):
                 ctx.violation(f"{name}:all:affine-variant",
                               {**case, "a": a, "b": b, "at": idx}, cid)
             ctx.count("affine_checked")
-        else:
+        elif not is_refusal(G2, constw):
             ctx.violation(f"{name}:all:affine:raises:{type(G2).__name__}",
                           case, cid)
         p = r.permutation(N)
@@ -606,7 +628,7 @@ def fam_mi(ctx, mods, r, k, cid):
                 ctx.violation(f"{name}:all:reorder-not-equivariant",
                               {**case, "perm": p, "at": idx}, cid)
             ctx.count("reorder_checked")
-        else:
+        elif not is_refusal(G3, constw):
             ctx.violation(f"{name}:all:reorder:raises:{type(G3).__name__}",
                           case, cid)
     # ------------------------------ binning -----------------------------
@@ -772,6 +794,18 @@ def fam_knn(ctx, mods, r, k, cid):
     data, tags = gen_data(r, T, N, style)
     case = {"T": T, "N": N, "tau_max": tau_max, "knn": knn, "tags": tags,
             "data": data if data.size <= 60 else None}
+    # generator precondition (termination of the growing-cube search, which
+    # a SIGALRM watchdog cannot interrupt inside the compiled kernel): every
+    # window standardises to finite single-precision numbers.  A constant
+    # window whose float32 mean is inexact standardises to +-inf, is not
+    # caught by the library's NaN guard and the search never ends.
+    for n in range(N):
+        for s0 in range(tau_max + 1):
+            w = ref.standardize_f32([data[s0:s0 + M, n]])
+            if not np.all(np.isfinite(w)) or ref.is_const(data[s0:s0 + M, n]):
+                ctx.count("rejected")
+                ctx.count("knn_rejected_constant_window")
+                return
     name = f"{CA}.mutual_information:knn"
     ca = CouplingAnalysis(data.copy(), silence_level=3)
     constw = has_const_window(data, tau_max)
@@ -875,14 +909,15 @@ def fam_it(ctx, mods, r, k, cid):
               cond_mode=cond_mode)
     offd = ~np.eye(N, dtype=bool)
     for mode in ("max", "all"):
-        name = f"{CA}.information_transfer:gauss/{mode}/{cond_mode}"
+        base = f"{CA}.information_transfer:gauss/{cond_mode}"
+        name = f"{base}:{mode}"
         ok, res = ctx.call(ca.information_transfer, lag_mode=mode, **kw)
         ctx.evals()
         if not ok:
             if is_refusal(res, constw):
                 ctx.count("rejected")
             else:
-                ctx.violation(f"{CA}.information_transfer:gauss/{mode}:"
+                ctx.violation(f"{CA}.information_transfer:gauss:{mode}:"
                               f"raises:{type(res).__name__}",
                               {**case, "exc": repr(res)[:300]}, cid)
             continue
@@ -890,7 +925,7 @@ def fam_it(ctx, mods, r, k, cid):
             S, L = res
             F = RI.copy()
             F[~offd] = np.nan
-            check_mi_max(ctx, name, S, L, F, TOL_R, 1e-5, cid, case)
+            check_mi_max(ctx, base, S, L, F, TOL_R, 1e-5, cid, case)
             if np.any(_f(S)[~offd] != 0):
                 ctx.violation(f"{name}:diagonal-not-zero", case, cid)
             if out_of_range(S, -1e-6, np.inf):
@@ -1061,6 +1096,10 @@ def fam_clim(ctx, mods, r, k, cid):
                            float(_f(sgn)[tuple(idx)]),
                            "ref": None if idx is None else
                            float(Rm[tuple(idx)])}, cid)
+            if sig_tag:
+                # tied ranks: relations below would only restate this event
+                ctx.count("clim_spearman_ties_compared")
+                continue
         # the stored similarity = |statistic| of the object's own anomaly
         nb2, _, idx = worst(sim, np.where(np.isnan(Rm), np.nan,
                                           np.abs(_f(sgn))), tol)
@@ -1287,6 +1326,46 @@ def fam_surr(ctx, mods, r, k, cid):
 
 
 # --------------------------------------------------------------------------
+def post(m, results, san_logs):
+    """Driver-side hook.  A case during which the process was killed by
+    SIGSEGV/SIGABRT/SIGBUS/SIGFPE/SIGILL produced no estimate at all: it is
+    recorded as an event `<library call in progress>:crashes:<signal>` (the
+    call label is left in a stage file by the dying process and picked up by
+    the resumed one).  A case killed by the hard watchdog (a compiled loop
+    that does not return) makes the run INCONCLUSIVE through the floor
+    `runs_without_hard_kill`."""
+    import signal
+    run = m["notes"].get("_run", {})
+    hard = 0
+    for R in results:
+        for d in R.get("deaths", []):
+            rc = d["rc"]
+            cid = d["case_id"]
+            if isinstance(rc, int) and -rc in (4, 6, 7, 8, 11):
+                label = m["notes"].get(f"death_stage:{cid}", "unknown-call")
+                sig = f"{label}:crashes:{signal.Signals(-rc).name}"
+                e = m["events"].setdefault(sig, {"count": 0, "details": []})
+                e["count"] += 1
+                if len(e["details"]) < 3:
+                    e["details"].append({
+                        "case_id": cid, "shard": d["shard"],
+                        "nshards": m["notes"].get("nshards", 16),
+                        "tier": run.get("tier", "quick"),
+                        "seed": run.get("seed", 0),
+                        "detail": {"rc": rc, "log": (d["log"] or "")[-600:]}})
+            else:
+                hard += 1
+                m["notes"].setdefault("hard_killed_cases", []).append(
+                    [cid, m["notes"].get(f"death_stage:{cid}")])
+    m["counters"]["cases_killed_by_hard_watchdog"] = hard
+    m["counters"]["runs_without_hard_kill"] = 0 if hard else 1
+
+
+HARD_KILL_S = 90
+STAGE_FILE = "c10_stage"
+DEAD_FILE = "c10_dead_families"
+
+
 FAMILIES = [("cc", fam_cc, 4), ("mi", fam_mi, 3), ("knn", fam_knn, 2),
             ("it", fam_it, 3), ("clim", fam_clim, 3), ("surr", fam_surr, 2)]
 
@@ -1312,6 +1391,42 @@ def run(ctx):
             "PartialCorrelation": PartialCorrelationClimateNetwork,
             "MutualInfo": MutualInfoClimateNetwork,
             "Surrogates": Surrogates}
+    ctx.note("nshards", ctx.nshards)
+    # --- death handling (cwd is private to the shard, kept across restarts)
+    # The soft watchdog cannot interrupt a compiled loop and nothing survives
+    # a SIGSEGV: every library call leaves its label in a stage file, cases
+    # are gated by ctx.start (progress file, META["resume_on_death"]) and run
+    # under a hard watchdog.  The driver restarts the shard after the
+    # killing case; the restarted process reports the stage and skips the
+    # rest of that family (its floor may then be missed => INCONCLUSIVE).
+    poisoned = set()
+    if ctx.resume_after is not None:
+        try:
+            with open(STAGE_FILE) as fh:
+                ctx.note(f"death_stage:{ctx.resume_after}", fh.read())
+        except OSError:
+            pass
+        if os.path.exists(DEAD_FILE):
+            with open(DEAD_FILE) as fh:
+                poisoned = set(fh.read().split())
+        fam = str(ctx.resume_after).split(":")[0]
+        if fam not in poisoned:
+            poisoned.add(fam)
+            with open(DEAD_FILE, "a") as fh:
+                fh.write(fam + "\n")
+    elif os.path.exists(DEAD_FILE):
+        os.remove(DEAD_FILE)
+    plain_call = ctx.call
+
+    def staged_call(fn, *a, **k):
+        if ctx.progress_path:
+            label = getattr(fn, "__qualname__", type(fn).__name__)
+            if "estimator" in k:
+                label += ":" + str(k["estimator"])
+            with open(STAGE_FILE, "w") as fh:
+                fh.write(label)
+        return plain_call(fn, *a, **k)
+    ctx.call = staged_call
     assert ref.selftest()
     ctx.count("reference_selftest_passed")
 
@@ -1326,11 +1441,17 @@ def run(ctx):
             for tau_max in (0, 1):
                 cid = f"ex:{T}:{''.join(str(int(v) + 1) for v in vals)}:" \
                       f"{tau_max}"
-                if not ctx.want(cid):
+                if not ctx.start(cid):
+                    continue
+                if "ex" in poisoned:
                     continue
                 case = {"T": T, "N": 2, "tau_max": tau_max, "data": data}
-                res = check_cc_core(ctx, CouplingAnalysis, data, tau_max,
-                                    cid, case, count=False)
+                faulthandler.dump_traceback_later(HARD_KILL_S, exit=True)
+                try:
+                    res = check_cc_core(ctx, CouplingAnalysis, data, tau_max,
+                                        cid, case, count=False)
+                finally:
+                    faulthandler.cancel_dump_traceback_later()
                 ctx.count("exhaustive_cc_cases")
                 if res is not None and nondegenerate_r(res[3]):
                     ctx.nontrivial(dkey("cc", tau_max, data))
@@ -1339,7 +1460,7 @@ def run(ctx):
     sched = []
     for name, fn, w in FAMILIES:
         sched += [(name, fn)] * w
-    cap = 60000 if ctx.thorough else 6400
+    cap = 120000 if ctx.thorough else 3200
     k = 0
     while ctx.time_left() > 0 and k < cap:
         k += 1
@@ -1347,10 +1468,17 @@ def run(ctx):
             continue
         name, fn = sched[(k // ctx.nshards) % len(sched)]
         cid = f"{name}:{k}"
-        if not ctx.want(cid):
+        if not ctx.start(cid):
+            continue
+        if name in poisoned:
+            ctx.count("skipped_after_death:" + name)
             continue
         r = ctx.rng(name, k)
         np.random.seed(k)
-        with ctx.guard(120):
-            fn(ctx, mods, r, k, cid)
+        faulthandler.dump_traceback_later(HARD_KILL_S, exit=True)
+        try:
+            with ctx.guard(60):
+                fn(ctx, mods, r, k, cid)
+        finally:
+            faulthandler.cancel_dump_traceback_later()
         ctx.count(f"cases_{name}")
